@@ -50,18 +50,18 @@ Proof.
   - rewrite pre_nil; reflexivity.
 Qed.
 
-Definition run_of_mstop (m : Z) (kont : cobj -> res -> coro) (r : list event * store * mstop)
+Definition run_of_mstop (m : Z) (kont kc : cobj -> res -> coro) (r : list event * store * mstop)
   : list event * store * stop :=
   let '(evs, s', st) := r in
   match st with
   | MEnd o x => pre evs (run s' (kont o x))
-  | MSusp y k => (evs, s', SSusp y (relay_cont m k kont))
+  | MSusp y k => (evs, s', SSusp y (relay_cont m k kont kc))
   end.
 
-Lemma relay_k_run : forall c m first s kont,
-  run s (relay_k m first c kont) = run_of_mstop m kont (relay_run m first s c).
+Lemma relay_k_run : forall c m first s kont kc,
+  run s (relay_k m first c kont kc) = run_of_mstop m kont kc (relay_run m first s c).
 Proof.
-  induction c as [v|e|ev c IH|x k IH|x v c IH|y k IH]; intros m first s kont; simpl.
+  induction c as [v|e|ev c IH|x k IH|x v c IH|y k IH]; intros m first s kont kc; simpl.
   - rewrite pre_nil; reflexivity.
   - rewrite pre_nil; reflexivity.
   - rewrite IH. destruct (relay_run m first s c) as [[evs s'] [o x|y k]]; simpl.
@@ -74,20 +74,31 @@ Proof.
     + reflexivity.
 Qed.
 
-Lemma relay_cont_run : forall m k kont s i,
-  run s (relay_cont m k kont i) = run_of_mstop m kont (resume_run m s k i).
+(* the answer to a real suspension: GeneratorExit goes to [kc], everything else to [kont] *)
+Lemma relay_cont_run_close : forall m k kont kc s,
+  run s (relay_cont m k kont kc (Throw GeneratorExit)) =
+  let '(evs, s', st) := resume_run m s k (Throw GeneratorExit) in
+  match st with
+  | MEnd o x => pre evs (run s' (kc o x))
+  | MSusp y k' => (evs, s', SSusp y (relay_cont m k' kont kc))
+  end.
 Proof.
-  intros m k kont s i. unfold relay_cont, resume_run.
-  destruct i as [v|e]; [apply relay_k_run|].
-  destruct e; try apply relay_k_run.
-  rewrite close_k_run. destruct (close_run s (k (Throw GeneratorExit))) as [[evs s'] [o r]].
-  reflexivity.
+  intros. unfold relay_cont, resume_run. rewrite close_k_run.
+  destruct (close_run s (k (Throw GeneratorExit))) as [[evs s'] [o r]]. reflexivity.
 Qed.
 
-Lemma asend_k_run : forall m o i s kont,
-  run s (asend_k m o i kont) = run_of_mstop m kont (asend_run m s o i).
+Lemma relay_cont_run_other : forall m k kont kc s i, i <> Throw GeneratorExit ->
+  run s (relay_cont m k kont kc i) = run_of_mstop m kont kc (resume_run m s k i).
 Proof.
-  intros m o i s kont. unfold asend_k, asend_run, mstate. simpl.
+  intros m k kont kc s i Hi. unfold relay_cont, resume_run.
+  destruct i as [v|e]; [apply relay_k_run|].
+  destruct e; try apply relay_k_run. contradiction.
+Qed.
+
+Lemma asend_k_run : forall m o i s kont kc,
+  run s (asend_k m o i kont kc) = run_of_mstop m kont kc (asend_run m s o i).
+Proof.
+  intros m o i s kont kc. unfold asend_k, asend_run, mstate. simpl.
   destruct (st (lookup s (cell m)) =? 0); simpl.
   - destruct (first_call o i) as [c|[o' e]]; simpl.
     + apply relay_k_run.
@@ -95,18 +106,10 @@ Proof.
   - rewrite pre_nil; reflexivity.
 Qed.
 
-(* the continuation a call stores at a real suspension *)
+(* the continuation a caller's `await m.<cl>(o)` stores at a real suspension *)
 Definition call_cont (m : Z) (cl : call) (k : input -> coro) (kont : cobj -> res -> coro) :=
-  relay_cont m k (fun o' r => kont o' (post cl r)).
-
-Lemma run_of_post : forall m cl kont r,
-  run_of_mstop m (fun o' x => kont o' (post cl x)) r =
-  let '(evs, s', st) := r in
-  match post_stop cl st with
-  | MEnd o x => pre evs (run s' (kont o x))
-  | MSusp y k => (evs, s', SSusp y (call_cont m cl k kont))
-  end.
-Proof. intros m cl kont [[evs s'] [o x|y k]]; reflexivity. Qed.
+  relay_cont m k (fun o' r => kont o' (post cl r))
+             (fun o' r => kont o' (bound_fix true (Throw GeneratorExit) (post cl r))).
 
 Definition run_of_call (m : Z) (cl : call) (kont : cobj -> res -> coro) (r : list event * store * mstop) :=
   let '(evs, s', st) := r in
@@ -120,16 +123,27 @@ Theorem call_k_run : forall m o cl s kont,
 Proof.
   intros. unfold call_k, call_run. destruct (skips cl o).
   - simpl. rewrite pre_nil; reflexivity.
-  - rewrite asend_k_run, run_of_post.
-    destruct (asend_run m s o (call_input cl)) as [[evs s'] stp]. reflexivity.
+  - rewrite asend_k_run.
+    destruct (asend_run m s o (call_input cl)) as [[evs s'] [o' x|y k]]; reflexivity.
 Qed.
 
+(* a caller's await adds one frame around the call coroutine: bound_resume true *)
 Theorem call_cont_run : forall m cl k kont s i,
-  run s (call_cont m cl k kont i) = run_of_call m cl kont (call_resume m cl s k i).
+  run s (call_cont m cl k kont i) = run_of_call m cl kont (bound_resume true m cl s k i).
 Proof.
-  intros. unfold call_cont, call_resume. rewrite relay_cont_run, run_of_post.
-  destruct (resume_run m s k i) as [[evs s'] stp]. reflexivity.
+  intros. unfold call_cont, bound_resume, call_resume.
+  assert (D : i = Throw GeneratorExit \/ i <> Throw GeneratorExit).
+  { destruct i as [v|e]; [right; discriminate|]. destruct e; try (right; discriminate). left; reflexivity. }
+  destruct D as [->|Hi].
+  - rewrite relay_cont_run_close.
+    destruct (resume_run m s k (Throw GeneratorExit)) as [[evs s'] [o x|y k']]; reflexivity.
+  - rewrite relay_cont_run_other by assumption.
+    destruct (resume_run m s k i) as [[evs s'] [o x|y k']]; simpl; [|reflexivity].
+    assert (F : bound_fix true i (post cl x) = post cl x).
+    { destruct i as [v|e]; [reflexivity|]. destruct e; try reflexivity. contradiction. }
+    rewrite F. reflexivity.
 Qed.
+
 (* ------------------------------------------------ generic simulation of sessions *)
 Section Sim.
   Variables O K O' K' : Type.
@@ -417,13 +431,13 @@ Opaque lookup update cell.
 
 (* an oob of the OUTER monitor A issued under the relay of B: B passes it outward
    untouched (a real suspension for B, B stays active), A's relay consumes it *)
-Lemma nested_outer_oob : forall A B fa fb s d k kontB,
+Lemma nested_outer_oob : forall A B fa fb s d k kontB kcB,
   A <> B -> mstate s A = 1 -> mstate s B = 1 ->
-  relay_run A fa s (relay_k B fb (emb (TOob A d k)) kontB) =
+  relay_run A fa s (relay_k B fb (emb (TOob A d k)) kontB kcB) =
   ([], setcell (setcell (setcell s A (-1)) A 1) A 0,
-   MEnd (Suspended (relay_cont B (kemb k) kontB)) (RExc (OOBData d))).
+   MEnd (Suspended (relay_cont B (kemb k) kontB kcB)) (RExc (OOBData d))).
 Proof.
-  intros A B fa fb s d k kontB Hne HA HB. simpl.
+  intros A B fa fb s d k kontB kcB Hne HA HB. simpl.
   rewrite mstate_unfold, HA. simpl.
   fold (setcell s A (-1)). rewrite mstate_unfold, mstate_set_other by auto. rewrite HB. simpl.
   rewrite mstate_set_same. reflexivity.
@@ -431,34 +445,34 @@ Qed.
 
 (* an oob of the INNER monitor B: consumed by B's relay; A's relay only sees what
    B's driver (kontB) does next *)
-Lemma nested_inner_oob : forall A B fa fb s d k kontB,
+Lemma nested_inner_oob : forall A B fa fb s d k kontB kcB,
   A <> B -> mstate s B = 1 ->
-  relay_run A fa s (relay_k B fb (emb (TOob B d k)) kontB) =
+  relay_run A fa s (relay_k B fb (emb (TOob B d k)) kontB kcB) =
   relay_run A fa (setcell (setcell (setcell s B (-1)) B 1) B 0)
             (kontB (Suspended (kemb k)) (RExc (OOBData d))).
 Proof.
-  intros A B fa fb s d k kontB Hne HB. simpl.
+  intros A B fa fb s d k kontB kcB Hne HB. simpl.
   rewrite mstate_unfold, HB. simpl.
   fold (setcell s B (-1)). rewrite mstate_unfold, mstate_set_same. reflexivity.
 Qed.
 
 (* a real suspension passes through both relays unchanged *)
-Lemma nested_real : forall A B fa fb s y k kontB,
+Lemma nested_real : forall A B fa fb s y k kontB kcB,
   mstate s A = 1 -> mstate s B = 1 ->
-  relay_run A fa s (relay_k B fb (emb (TSusp y k)) kontB) =
-  ([], s, MSusp y (relay_cont B (kemb k) kontB)).
+  relay_run A fa s (relay_k B fb (emb (TSusp y k)) kontB kcB) =
+  ([], s, MSusp y (relay_cont B (kemb k) kontB kcB)).
 Proof.
-  intros A B fa fb s y k kontB HA HB. simpl.
+  intros A B fa fb s y k kontB kcB HA HB. simpl.
   rewrite mstate_unfold, HB. simpl. rewrite HA. reflexivity.
 Qed.
 
 Transparent lookup update cell.
 
 (* what is sent / thrown at such a suspension reaches the body's continuation through B *)
-Lemma relay_cont_forward : forall B k kontB i,
-  i <> Throw GeneratorExit -> relay_cont B (kemb k) kontB i = relay_k B false (emb (k i)) kontB.
+Lemma relay_cont_forward : forall B k kontB kcB i,
+  i <> Throw GeneratorExit -> relay_cont B (kemb k) kontB kcB i = relay_k B false (emb (k i)) kontB kcB.
 Proof.
-  intros B k kontB i H. unfold relay_cont, kemb.
+  intros B k kontB kcB i H. unfold relay_cont, kemb.
   destruct i as [v|e]; [reflexivity|]. destruct e; try reflexivity. contradiction.
 Qed.
 
@@ -555,9 +569,9 @@ Example ex_lost_confuses :
     = [[ORaise (OOBData (VInt 1))]; [OYield (VInt 12)]].
 Proof. split; vm_compute; reflexivity. Qed.
 
-Example ex_nested : forall kontB,
+Example ex_nested : forall kontB kcB,
   relay_run 0 false [(cell 1, VInt 1); (cell 0, VInt 1)]
-            (relay_k 1 false (emb (TOob 0 (VInt 9) (fun _ => TRet VNone))) kontB)
+            (relay_k 1 false (emb (TOob 0 (VInt 9) (fun _ => TRet VNone))) kontB kcB)
   = ([], setcell (setcell (setcell [(cell 1, VInt 1); (cell 0, VInt 1)] 0 (-1)) 0 1) 0 0,
-     MEnd (Suspended (relay_cont 1 (kemb (fun _ => TRet VNone)) kontB)) (RExc (OOBData (VInt 9)))).
+     MEnd (Suspended (relay_cont 1 (kemb (fun _ => TRet VNone)) kontB kcB)) (RExc (OOBData (VInt 9)))).
 Proof. intros. apply nested_outer_oob; [lia|reflexivity|reflexivity]. Qed.
